@@ -1,8 +1,20 @@
 #!/bin/bash
-# usage: tools_seed_try.sh <seeded-dir-name> [check ids...]   applies the patch to /repo, runs the checks, undoes it
+# usage: tools_seed_try.sh [--in-place] <seeded-dir-name> [check ids...]
+# Runs the named checks (default: the change's own property) against the seeded change.
+# Default: in a private scratch worktree of /repo (VERIF_REPO), so /repo is never touched and several
+# of these can run at once. --in-place: git -C /repo apply, run, git -C /repo checkout -- . (the prescribed way).
+inplace=0; [ "$1" = "--in-place" ] && { inplace=1; shift; }
 name=$1; shift
 ids=${@:-$(echo $name | cut -d- -f1)}
-git -C /repo status --short | grep -q . && { echo "/repo is dirty"; exit 2; }
-git -C /repo apply /verif/seeded/$name/patch.diff || { echo "patch does not apply"; exit 2; }
-for id in $ids; do echo "== $name vs $id"; /verif/check $id 2>&1 | grep -v "^KNOWN" | tail -4 | cut -c1-300; done
-git -C /repo checkout -- .
+if [ $inplace = 1 ]; then
+  git -C /repo status --short | grep -q . && { echo "/repo is dirty"; exit 2; }
+  git -C /repo apply /verif/seeded/$name/patch.diff || { echo "patch does not apply"; exit 2; }
+  for id in $ids; do echo "== $name vs $id"; /verif/check $id 2>&1 | grep -v "^KNOWN" | tail -4 | cut -c1-300; done
+  git -C /repo checkout -- .
+else
+  wt=/tmp/seedtry-$$
+  git -C /repo worktree add -q --detach $wt HEAD || exit 2
+  git -C $wt apply /verif/seeded/$name/patch.diff || { echo "patch does not apply"; git -C /repo worktree remove --force $wt; exit 2; }
+  for id in $ids; do echo "== $name vs $id"; VERIF_REPO=$wt /verif/check $id 2>&1 | grep -v "^KNOWN" | tail -4 | cut -c1-300; done
+  git -C /repo worktree remove --force $wt
+fi
